@@ -59,6 +59,11 @@ def get_mcnp_transforms(parser):
 def normalize_transform(transf):
     '''Return a normalized, 12-param version of the affine transformation.
     '''
+    # jumped entries (J) take their default value: no displacement, m = 1
+    transf = [0.0 if value is None and i < 3 else value
+              for i, value in enumerate(transf)]
+    if len(transf) == 13 and transf[-1] is None:
+        transf[-1] = 1
     if len(transf) == 13 and transf[-1] != 1:
         raise TransformationError('Transformations with m=-1 are not supported'
                                   ' yet.')
